@@ -1,9 +1,183 @@
-(* C15 — interface names round-trip and sort numerically; interface ranges expand exactly. *)
-From Coq Require Import NArith List.
+(* C15 — interface names round-trip and sort numerically; interface ranges expand exactly.
+   Statements are about Model/Intf.v (hand model of CiscoIOSInterface / CiscoRange, tied to /repo by the
+   correspondence streams of harness/props/c15.py).  Vocabulary (Proofs/C15Proofs.v):
+     canon c       = prefix of letters / '-' / inner blanks without blank at either end, class word of
+                     letters / '-' (non-empty) when present, and either no slot/card/separator or a slot
+                     with separator "/"
+     same_shape    = the same components are present (slot, card, sub-interface, channel, class word)
+     nums c        = the numeric components present, in the order slot, card, port, sub-interface, channel
+     member a b v  = interface b with its iterated component a (port / sub-interface / channel) set to v *)
+From Coq Require Import NArith List Bool Sorting.Sorted.
 Require Import CCP.Lib.PyStr CCP.Lib.Res CCP.Model.Intf CCP.Proofs.C15Proofs.
 Import ListNotations.
 Open Scope N_scope.
 
-Theorem C15_range_readers_pure : forall st rs, fst (read_all st rs) = st.
+(* ---------------------------------------------------------------- names *)
+(* name_roundtrip: rendering a canonical tuple and parsing it gives the tuple back *)
+Theorem C15_name_roundtrip : forall c, canon c -> parse_intf (render c) = Ok c.
+Proof. exact name_roundtrip. Qed.
+Print Assumptions C15_name_roundtrip.
+
+(* ... also with any run of whitespace between a non-empty prefix and the number (the optional blank) *)
+Theorem C15_name_blank : forall c ws,
+  canon c -> forallb is_space ws = true -> (ws = [] \/ i_prefix c <> []) ->
+  parse_intf (i_prefix c ++ ws ++ tail_str c) = Ok c.
+Proof. exact name_blank. Qed.
+Print Assumptions C15_name_blank.
+
+(* render_parse_canonical: whatever text parses, its components are canonical and the rendering (the
+   canonical name) parses to the same components; re-rendering is a fixed point *)
+Theorem C15_render_parse_canonical : forall s c,
+  parse_intf s = Ok c -> canon c /\ parse_intf (render c) = Ok c.
+Proof. exact render_parse_canonical. Qed.
+Print Assumptions C15_render_parse_canonical.
+
+Theorem C15_render_fixed_point : forall s c c',
+  parse_intf s = Ok c -> parse_intf (render c) = Ok c' -> c' = c /\ render c' = render c.
+Proof. exact render_fixed_point. Qed.
+Print Assumptions C15_render_fixed_point.
+
+(* F27 (known finding): a class word holding a digit (l2transport) is not a class word for the parser *)
+Theorem C15_class_with_digit_refuted :
+  exists c, parse_intf [69; 116; 104; 49; 47; 50; 32; 108; 50; 116; 114; 97; 110; 115; 112; 111; 114; 116] = Ok c /\ i_class c = None.
+Proof. exact class_digit_refuted. Qed.
+Print Assumptions C15_class_with_digit_refuted.
+
+(* ---------------------------------------------------------------- order, equality, hash *)
+(* order_numeric: for interfaces of one shape, < compares the numeric components numerically, position by
+   position, and only then the class words *)
+Theorem C15_order_numeric : forall a b, same_shape a b ->
+  intf_lt a b = Ok (lex_ltb (nums a) (nums b) || (list_eqb N.eqb (nums a) (nums b) && class_ltb (i_class a) (i_class b))).
+Proof. exact order_numeric. Qed.
+Print Assumptions C15_order_numeric.
+
+Theorem C15_order_numeric_example :
+  exists a b, parse_intf [69; 116; 104; 49; 47; 50] = Ok a /\ parse_intf [69; 116; 104; 49; 47; 49; 48] = Ok b /\
+              same_shape a b /\ intf_lt a b = Ok true /\ str_ltb (render b) (render a) = true.
+Proof. exact order_numeric_example. Qed.
+Print Assumptions C15_order_numeric_example.
+
+Theorem C15_gt_is_flipped_lt : forall a b, intf_gt a b = intf_lt b a.
+Proof. exact gt_is_flipped_lt. Qed.
+Print Assumptions C15_gt_is_flipped_lt.
+
+Theorem C15_lt_trans : forall a b c, same_shape a b -> same_shape b c ->
+  intf_lt a b = Ok true -> intf_lt b c = Ok true -> intf_lt a c = Ok true.
+Proof. exact lt_trans. Qed.
+Print Assumptions C15_lt_trans.
+
+(* order_eq_hash_compat *)
+Theorem C15_eq_spec : forall a b,
+  intf_eqb a b = true <->
+  i_prefix a = i_prefix b /\ i_slot a = i_slot b /\ i_card a = i_card b /\ i_port a = i_port b /\
+  i_sub a = i_sub b /\ i_chan a = i_chan b /\ i_class a = i_class b.
+Proof. exact intf_eqb_spec. Qed.
+Print Assumptions C15_eq_spec.
+
+Theorem C15_eq_hash : forall a b, intf_eqb a b = true -> intf_hash a = intf_hash b.
+Proof. exact eq_hash. Qed.
+Print Assumptions C15_eq_hash.
+
+Theorem C15_eq_not_lt : forall a b, intf_eqb a b = true -> intf_lt a b = Ok false /\ intf_gt a b = Ok false.
+Proof. exact eq_not_lt. Qed.
+Print Assumptions C15_eq_not_lt.
+
+Theorem C15_order_eq_hash_compat : forall a b, same_shape a b -> i_prefix a = i_prefix b ->
+  (intf_lt a b = Ok true /\ intf_eqb a b = false /\ intf_lt b a = Ok false) \/
+  (intf_lt a b = Ok false /\ intf_eqb a b = true /\ intf_lt b a = Ok false) \/
+  (intf_lt a b = Ok false /\ intf_eqb a b = false /\ intf_lt b a = Ok true).
+Proof. exact trichotomy. Qed.
+Print Assumptions C15_order_eq_hash_compat.
+
+(* ---------------------------------------------------------------- ranges *)
+(* range_expand_spec: the range text  "<interface>[-<end>],<n>[-<end>],..."  (canonical first interface
+   whose port is the last numeric component, no '-' in its prefix, no class word) expands to exactly the
+   first interface with its port replaced by every listed value, each once, in ascending order.
+   item_vals (a, None) = [a], item_vals (a, Some e) = a..e.  *)
+Theorem C15_range_expand_spec : forall base e0 items,
+  plain_base base ->
+  let vals := item_vals (i_port base, e0) ++ flat_map item_vals items in
+  vals <> [] ->
+  exists vs, parse_range (range_text base e0 items) = Ok (map (member A_port base) vs) /\
+             StronglySorted N.lt vs /\ (forall v, In v vs <-> In v vals).
+Proof. exact range_text_spec. Qed.
+Print Assumptions C15_range_expand_spec.
+
+(* the same with a trailing class word of letters ("Serial1/0-5,7 multipoint"): every member carries it *)
+Theorem C15_range_expand_class_spec : forall base e0 items w,
+  plain_base base -> classword w ->
+  let vals := item_vals (i_port base, e0) ++ flat_map item_vals items in
+  vals <> [] ->
+  exists vs, parse_range (range_text_cls base e0 items w) = Ok (map (member A_port (set_class base w)) vs) /\
+             StronglySorted N.lt vs /\ (forall v, In v vs <-> In v vals).
+Proof. exact range_text_cls_spec. Qed.
+Print Assumptions C15_range_expand_class_spec.
+
+(* the expansion stage for ALL bases and ALL token lists (one token per comma-separated part: the interface
+   parsed left of '-', the optional end ordinal), whichever component is iterated: the result is the base
+   with its iterated component replaced by every listed value, each once, in ascending order.  The guard
+   (every part carries the iterated component) is exactly what F20/F28 violate. *)
+Theorem C15_range_expand_tokens : forall base toks,
+  let a := pick_attr base in
+  let vals := flat_map (tok_vals a) toks in
+  (forall t, In t toks -> get_attr a (fst t) <> None) ->
+  match toks with t0 :: _ => get_attr a (fst t0) = get_attr a base | [] => True end ->
+  (vals <> [] ->
+     expand base toks = Ok (map (member a base) (sortN (dedupN vals))) /\
+     StronglySorted N.lt (sortN (dedupN vals)) /\ (forall v, In v (sortN (dedupN vals)) <-> In v vals)) /\
+  (vals = [] -> expand base toks = Raise E_ValueError).
+Proof. exact range_expand_spec. Qed.
+Print Assumptions C15_range_expand_tokens.
+
+(* tokenisation of one comma-separated part: "<interface>" and "<interface>-<end>" for a canonical
+   interface without '-' in its prefix / class word (the guard that F28 violates); bare numbers are the
+   special case of an empty prefix *)
+Theorem C15_part_token_single : forall c, canon c -> dash_free c -> part_token (render c) = Ok (c, None).
+Proof. exact part_token_single. Qed.
+Print Assumptions C15_part_token_single.
+
+Theorem C15_part_token_range : forall c e, canon c -> dash_free c ->
+  part_token (render c ++ c_dash :: render_dec e) = Ok (c, Some e).
+Proof. exact part_token_range. Qed.
+Print Assumptions C15_part_token_range.
+
+Theorem C15_part_token_bare : forall n e,
+  part_token (render_dec n) = Ok (bare n, None) /\ part_token (render_dec n ++ c_dash :: render_dec e) = Ok (bare n, Some e).
+Proof. intros n e. split; [apply part_token_bare|apply part_token_bare_range]. Qed.
+Print Assumptions C15_part_token_bare.
+
+(* for the usual case (the port is iterated) no guard is needed *)
+Theorem C15_range_expand_port : forall base toks,
+  pick_attr base = A_port ->
+  match toks with t0 :: _ => i_port (fst t0) = i_port base | [] => True end ->
+  flat_map (tok_vals A_port) toks <> [] ->
+  exists vs, expand base toks = Ok (map (member A_port base) vs) /\ StronglySorted N.lt vs /\
+             (forall v, In v vs <-> In v (flat_map (tok_vals A_port) toks)).
+Proof. exact range_expand_port. Qed.
+Print Assumptions C15_range_expand_port.
+
+(* F20/F28 (known findings): the guard fails for channel / sub-interface ranges with a later bare part,
+   and a '-' inside the prefix breaks the split *)
+Theorem C15_range_channel_refuted :
+  parse_range [83; 101; 114; 105; 97; 108; 49; 47; 48; 58; 49; 45; 51; 44; 55] = Raise E_TypeError.
+Proof. exact range_channel_refuted. Qed.
+Print Assumptions C15_range_channel_refuted.
+
+Theorem C15_range_dash_prefix_refuted :
+  parse_range [80; 111; 114; 116; 45; 99; 104; 97; 110; 110; 101; 108; 49; 44; 51] = Raise E_Other.
+Proof. exact range_dash_prefix_refuted. Qed.
+Print Assumptions C15_range_dash_prefix_refuted.
+
+(* range_readers_pure: any sequence of read accessors leaves the range unchanged, and every output is the
+   one the accessor gives on the initial range *)
+Theorem C15_range_readers_pure : forall st rs,
+  fst (read_all st rs) = st /\ snd (read_all st rs) = map (fun r => snd (read st r)) rs.
 Proof. exact readers_pure. Qed.
 Print Assumptions C15_range_readers_pure.
+
+(* as_list() of an expanded range lists the members in the order of iteration *)
+Theorem C15_as_list_agrees : forall a base vs,
+  StronglySorted N.lt vs -> vs <> [] ->
+  read (map (member a base) vs) R_as_list = (map (member a base) vs, O_list (map render (map (member a base) vs))).
+Proof. exact as_list_agrees. Qed.
+Print Assumptions C15_as_list_agrees.
